@@ -374,7 +374,8 @@ qb_log_target_format(int32_t target,
 		return;
 	}
 
-	while ((c = t->format[format_buffer_idx])) {
+	while ((c = t->format[format_buffer_idx]) &&
+	       output_buffer_idx < t->max_line_length - 1) {
 		cutoff = 0;
 		ralign = QB_FALSE;
 		if (c != '%') {
@@ -473,22 +474,24 @@ qb_log_target_format(int32_t target,
 					     (t->max_line_length -
 					      output_buffer_idx));
 			output_buffer_idx += len;
+			if (t->format[format_buffer_idx] == '\0') {
+				/* the format ends inside a directive */
+				break;
+			}
 			format_buffer_idx += 1;
-		}
-		if (output_buffer_idx >= t->max_line_length - 1) {
-			break;
 		}
 	}
 	pthread_rwlock_unlock(&_formatlock);
 
-	if (output_buffer[output_buffer_idx - 1] == '\n') {
+	output_buffer[output_buffer_idx] = '\0';
+	if (output_buffer_idx > 0 &&
+	    output_buffer[output_buffer_idx - 1] == '\n') {
 		output_buffer[output_buffer_idx - 1] = '\0';
-	} else {
-		output_buffer[output_buffer_idx] = '\0';
 	}
 
 	/* Indicate truncation */
-	if (t->ellipsis && output_buffer_idx >= t->max_line_length-1) {
+	if (t->ellipsis && output_buffer_idx >= 3 &&
+	    output_buffer_idx >= t->max_line_length-1) {
 		output_buffer[output_buffer_idx-3] = '.';
 		output_buffer[output_buffer_idx-2] = '.';
 		output_buffer[output_buffer_idx-1] = '.';
